@@ -171,6 +171,18 @@ def _limit(ctx):
                 return Int(vi)
             return None
         res = Interp(F, b, Oracle(read=read)).run()
+        if vi == 1 and reads:
+            # a migrating entry is either kept or folded back: no way round the loop that does neither
+            rb, ri, _ = reads[0]
+            inner = [(t_, h) for t_, h in cfg.natural_loops(b) if rb in cfg.loop_blocks(b, t_, h)]
+            inner.sort(key=lambda th: len(cfg.loop_blocks(b, th[0], th[1])))
+            if inner:
+                head = inner[0][1]
+                barriers = {(pb, len(b.blocks[pb].stmts)) for pb, _ in pushes} | {(mb, len(b.blocks[mb].stmts)) for mb, _ in merges}
+                pth = cfg.path_avoiding(b, (rb, ri), {head}, barriers, succs=cfg.exec_succs(b, res.exec_edges))
+                ctx.check(pth is None, "C01.D2", "limit_migration:every-migration-kept-or-deferred", site(b, rb, ri),
+                          ok="every migrating entry is either kept (pair) or merged back into the source", bad="a migrating entry can be dropped from the limited view: neither kept nor merged back",
+                          path=str(cfg.lines_of_path(b, pth)) if pth else None)
         reach = any(pb in res.exec_blocks for pb, _ in pushes) or any(mb in res.exec_blocks for mb, _ in merges)
         ctx.check(reach == (vi == 1), "C01.D2", "limit_migration:driven-by-migrating-entries:is_migrating=%d" % vi, site(b),
                   ok="handled" if vi else "skipped", bad="entries with is_migrating=%d are %s" % (vi, "processed" if reach else "skipped"))
